@@ -143,6 +143,8 @@ impl SearchSpace {
             let others: HashSet<_> = self.union.clone().into();
             let diff: HashSet<_> = others.difference(&best).cloned().collect();
             let remaining: HashSet<_> = diff.into_iter().take(take - best.len()).collect();
+            #[cfg(tx3_verif)]
+            crate::verif::push(crate::verif::Event::Fill(remaining.iter().cloned().collect()));
             best.union(&remaining).cloned().collect()
         } else {
             best
